@@ -633,3 +633,40 @@ Proof.
   - change new with (iname (new, snd it)) at 1. apply inv_all_reachable; [exact H3|].
     eapply nth_error_In; eauto.
 Qed.
+
+(* ---------- retain / truncate: what is filtered out or cut off is gone ---------- *)
+Lemma names_inj v a b : NoDup (names v) -> In a v -> In b v -> iname a = iname b -> a = b.
+Proof.
+  induction v as [|x r IH]; simpl; intros Hnd Ha Hb He; [contradiction|].
+  inversion Hnd as [|? ? Hnot Hnd']; subst.
+  destruct Ha as [Ha|Ha], Hb as [Hb|Hb].
+  - congruence.
+  - exfalso. apply Hnot. subst x. rewrite He. apply in_map. exact Hb.
+  - exfalso. apply Hnot. subst x. rewrite <- He. apply in_map. exact Ha.
+  - apply IH; assumption.
+Qed.
+
+Theorem retained_out_gone l p it : Inv l -> In it (items l) -> eval_pred p it = false ->
+  gone (il_retain l p) (iname it).
+Proof.
+  intros HI Hin Hp. destruct (retain_inv l p HI) as [H1 H2].
+  apply inv_absent_unreachable; [exact H1|]. rewrite H2. intro Hi.
+  unfold names in Hi. apply in_map_iff in Hi. destruct Hi as (it' & He & Hin').
+  apply filter_In in Hin'. destruct Hin' as [Hin' Hp'].
+  assert (it' = it) by (eapply names_inj; [exact (proj1 HI) | exact Hin' | exact Hin | exact He]).
+  subst it'. congruence.
+Qed.
+
+Theorem truncated_off_gone l n i it : Inv l -> nth_error (items l) i = Some it -> n <= i ->
+  gone (il_truncate l n) (iname it).
+Proof.
+  intros HI Hn Hle. destruct (truncate_inv l n HI) as [H1 H2].
+  apply inv_absent_unreachable; [exact H1|]. rewrite H2.
+  pose proof (proj1 HI) as Hnd. rewrite <- (firstn_skipn n (items l)) in Hnd, Hn.
+  assert (Hlt : i < length (items l)) by (rewrite <- (firstn_skipn n (items l)); apply nth_error_Some; congruence).
+  assert (Hlen : length (firstn n (items l)) = n) by (rewrite firstn_length; lia).
+  rewrite nth_error_app2 in Hn by lia.
+  apply nth_error_In in Hn.
+  apply NoDup_names_app in Hnd. destruct Hnd as (_ & _ & Hd).
+  intro Hi. apply (Hd _ Hi). apply in_map. exact Hn.
+Qed.
